@@ -506,6 +506,11 @@ pub fn run(rep: &mut Report) {
     // further run with an injected death is started (each is a violation; the verdict is clear)
     let mut hb = HangBudget::new(LIMIT_S, 4, 3);
     let hb = &mut hb;
+    // a rejected input is skipped AS A WHOLE: gcov 7.5 text output (scripted $GCOV), several .gcov
+    // files per unit of which one is unparsable; and gcov 12.2 runs that fail after writing output
+    rep.rule.push_str("; gcovstub stream: gcno/gcda units handed to a scripted $GCOV (gcov 7.5 text output, several files per unit, one unparsable; gcov 12.2 JSON output with failing runs that leave output behind), --threads 1/2/4, two argument orders: report == aggregate of the units that were not rejected");
+    let (nt, nj) = (rep.budget(6, 6), rep.budget(2, 6));
+    gcov_stub_stream(rep, 0xC07_57B, nt, nj, "C07");
     gcc_rejections(rep, &mut rng.fork());
     producer_deaths(rep, hb, &mut rng.fork(), &mut reqs, &mut ctx);
     injected_deaths(rep, hb, &mut rng.fork(), &mut reqs, &mut ctx);
@@ -613,6 +618,7 @@ fn merge_negatives(rep: &mut Report, reqs: &[String]) {
 }
 
 pub fn replay(rep: &mut Report, case: &serde_json::Value) {
+    if gcov_stub_replay(rep, case, "C07") { return; }
     let c = if case.get("context").is_some() { &case["context"]["case"] } else if case.get("case").is_some() { &case["case"] } else { case };
     let mut inputs = vec![];
     for i in c["inputs"].as_array().unwrap() {
